@@ -111,11 +111,13 @@ ArgType(c) == CASE c.arg = "struct" -> TRef("Upload") [] c.arg = "union" -> TRef
 RouteSchema == <<"host", "scope", "auth", "style">>
 Route(ns, n, ver, arg, res, dep, by, style) ==
     [ns |-> ns, n |-> n, ver |-> ver, arg |-> arg, res |-> res, err |-> TVoid, dep |-> dep, by |-> by, style |-> style,
-     auth |-> "user", scope |-> IF ver = 3 THEN "files\nread" ELSE ""]     \* a text of two lines
+     auth |-> "user", scope |-> IF ver = 3 THEN "files\nread" ELSE "",     \* a text of two lines
+     \* host has the default "api"; version 2 routes write the EMPTY text explicitly (an explicit value is not a missing one)
+     host |-> IF ver = 2 THEN "" ELSE "api"]
 AStr(x) == [k |-> "str", s |-> x]
 ANull   == [k |-> "null"]
-\* attribute values of a route in schema order: host is never written (default "api"), scope is nullable
-AttrVals(r) == <<AStr("api"), IF r.scope = "" THEN ANull ELSE AStr(r.scope), AStr(r.auth), AStr(r.style)>>
+\* attribute values of a route in schema order: host is written only when it is not the default "api", scope is nullable
+AttrVals(r) == <<AStr(r.host), IF r.scope = "" THEN ANull ELSE AStr(r.scope), AStr(r.auth), AStr(r.style)>>
 RoutesOf(c) == <<
     Route("na", "put", 1, ArgType(c), TRef("Entry"), IF c.dep = "late" THEN "none" ELSE c.dep,
           IF c.dep = "by" THEN <<"put", 2>> ELSE <<>>, c.style),
